@@ -71,6 +71,8 @@ PROPS["C11"] = dict(
         7: "unsanctioned floating-point arithmetic is reachable from a consensus entry point",
         8: "a package-level variable initialised from a nondeterminism source is read on a consensus path",
         9: "an unsanctioned write to a package-level variable is reachable from a consensus entry point",
+        10: "an unsanctioned update of a Go map the function did not create (process-local state such as a keeper-level "
+            "cache: survives a rolled-back tx, lost at restart) is reachable from a consensus entry point",
         11: "a second OS process executing the same genesis and history observed different state / results / export",
         12: "a second execution in the same process observed different state / results / export",
         13: "repeated ExportGenesis of one unchanged state produced different bytes",
